@@ -13,7 +13,7 @@ from harness import common, tlc
 
 common.setup_repo_path()
 
-PADVAL = -7
+PADVALS = (0, -7)     # a falsy and a truthy pad value
 
 
 def _bounds(tier):
@@ -28,7 +28,7 @@ def _mk_batches(sizes, ncols, container):
   for s in sizes:
     cols = []
     for c in range(ncols):
-      vals = [(row + j) * 10 + c for j in range(s)]
+      vals = [(row + j) * 10 + c + 1000 for j in range(s)]
       if container == 'list':
         cols.append(vals)
       elif container == 'tuple':
@@ -40,8 +40,8 @@ def _mk_batches(sizes, ncols, container):
   return out
 
 
-def _expected(expect, ncols):
-  return [[[(PADVAL if r == -1 else r * 10 + c) for r in chunk] for c in range(ncols)] for chunk in expect]
+def _expected(expect, ncols, padval):
+  return [[[(padval if r == -1 else r * 10 + c + 1000) for r in chunk] for c in range(ncols)] for chunk in expect]
 
 
 def _tolist(chunks):
@@ -54,7 +54,7 @@ def _replay(chk, h, containers):
   drift = 0
   for container in containers:
     for ncols in (1, 2):
-      for explicit_cols in (True, False):
+      for explicit_cols, PADVAL in ((True, PADVALS[0]), (False, PADVALS[1]), (True, PADVALS[1])):
         batches = _mk_batches(sizes, ncols, container)
         reads = []
 
@@ -79,7 +79,7 @@ def _replay(chk, h, containers):
             sig = 'rebatch:empty-stream-without-num-columns'
           chk.violation(sig, f'{e!r} sizes={sizes} B={b} pad={pad} {container} cols={ncols}', ctx)
           continue
-        want = _expected(h['expect'], ncols)
+        want = _expected(h['expect'], ncols, PADVAL)
         if got != want:
           kinds = []
           flat_g = [v for ch in got for v in ch[0] if v != PADVAL]
@@ -126,7 +126,7 @@ def _replay_pipeline(chk, h):
   if h['pad']:
     return
   batches = [list(col[0]) for col in _mk_batches(sizes, 1, 'list')]
-  want = [[v + 100 for v in ch[0]] for ch in _expected(h['expect'], 1)]
+  want = [[v + 100 for v in ch[0]] for ch in _expected(h['expect'], 1, 0)]
   for fnb in (0, 2, 3):
     ctx = dict(kind='rebatch-pipeline', history=h, fn_batch_size=fnb)
     seen = []
